@@ -252,7 +252,6 @@ impl State {
             ReverseStep::PushSpecial(Special::VecStackStart(p)) => {
                 write!(out, "PushSpecial({})", p).unwrap()
             }
-            ReverseStep::DropLocal(i) => write!(out, "DropLocal({})", i).unwrap(),
             ReverseStep::SwapRef(r, c) => {
                 write!(out, "SwapRef({},", r.index()).unwrap();
                 self.verif_cell(out, c);
